@@ -4,6 +4,7 @@ import (
 	"fmt"
 	"go/token"
 	"go/types"
+	"os"
 	"sort"
 	"strings"
 )
@@ -81,16 +82,22 @@ type Ctx struct {
 	ufs    map[string]bool
 	fresh  map[string]bool // refs allocated by the function under analysis
 	// loop modified sets discovered so far: key fn#headerIndex -> heap names
-	loopMods map[string]map[string]*modInfo
-	restart  bool
-	inlined  map[string]bool
-	depth    int
-	panics   []*PanicExit
-	gaps     map[string]bool // active known-gap names (assumed)
-	elemAx   bool
-	writes   []writeRec // every store to a heap variable, in script order
-	facts    map[string]bool // goals already assumed or demanded (deduplication of safety checks)
-	curPos   token.Pos
+	loopMods   map[string]map[string]*modInfo
+	restart    bool
+	inlined    map[string]bool
+	depth      int
+	panics     []*PanicExit
+	gaps       map[string]bool // active known-gap names (assumed)
+	elemAx     bool
+	tolerant   bool            // unsupported instructions become "unreachable" obligations
+	lfMode     bool            // lockfast mode
+	lfSet      map[string]bool // structural entry points (lockfast callees)
+	lfWorld    string
+	feasChecks int
+	known      map[string]bool // every name introduced so far
+	writes     []writeRec      // every store to a heap variable, in script order
+	facts      map[string]bool // goals already assumed or demanded (deduplication of safety checks)
+	curPos     token.Pos
 }
 
 type writeRec struct {
@@ -105,6 +112,7 @@ type modInfo struct {
 }
 
 type PanicExit struct {
+	st       *State
 	reach    string
 	dirty    string
 	pos      string
@@ -115,7 +123,7 @@ type PanicExit struct {
 
 func newCtx(p *Program, db *SpecDB, fn string, loopMods map[string]map[string]*modInfo) *Ctx {
 	c := &Ctx{P: p, DB: db, names: map[string]int{}, heaps: map[string]*heapInfo{}, subs: map[string]bool{}, subK: map[string]int{}, tags: map[string]int{}, tagTyp: map[int]types.Type{},
-		strs: map[string]int{}, notes: map[string]bool{}, fn: fn, ufs: map[string]bool{}, fresh: map[string]bool{}, loopMods: loopMods, inlined: map[string]bool{}, gaps: map[string]bool{}, facts: map[string]bool{}}
+		strs: map[string]int{}, notes: map[string]bool{}, fn: fn, ufs: map[string]bool{}, fresh: map[string]bool{}, loopMods: loopMods, inlined: map[string]bool{}, gaps: map[string]bool{}, facts: map[string]bool{}, known: map[string]bool{}}
 	c.emit("(declare-fun birth (Int) Int)")
 	c.emit("(declare-fun kind (Int) Int)")
 	c.emit("(declare-fun elem (Int (_ BitVec 64)) Int)")
@@ -148,10 +156,12 @@ func (c *Ctx) uniq(hint string) string {
 		h = "v"
 	}
 	c.names[h]++
-	if c.names[h] == 1 {
-		return h
+	n := h
+	if c.names[h] > 1 {
+		n = fmt.Sprintf("%s!%d", h, c.names[h])
 	}
-	return fmt.Sprintf("%s!%d", h, c.names[h])
+	c.known[n] = true
+	return n
 }
 
 func (c *Ctx) declare(hint, sort string) string {
@@ -183,6 +193,12 @@ func (c *Ctx) assumeUnder(st *State, term string) {
 }
 
 func (c *Ctx) oblige(st *State, kind, name, goal, text string) *Obligation {
+	if c.lfMode && kind != "lockfast" && kind != "unreachable" {
+		// lockfast mode decides only "nothing is written before an exit"; run-time checks, callee
+		// preconditions and invariants are the business of the functional contracts and are assumed here.
+		c.assume(implies(st.reach, goal), "")
+		return &Obligation{}
+	}
 	if parts := splitAnd(goal); len(parts) > 1 && len(parts) <= 16 && !strings.HasPrefix(kind, "safe/") {
 		var last *Obligation
 		for i, p := range parts {
@@ -193,8 +209,13 @@ func (c *Ctx) oblige(st *State, kind, name, goal, text string) *Obligation {
 	g := implies(st.reach, goal)
 	o := &Obligation{Name: name, Kind: kind, Func: c.fn, Prefix: len(c.script), Goal: g, Text: text, Expect: "unsat", Pos: c.P.pos(c.curPos)}
 	c.obls = append(c.obls, o)
-	// once demanded, it may be assumed afterwards
-	c.assume(g, "")
+	// once demanded, a run-time check or callee precondition may be assumed afterwards; exit-time
+	// clauses are independent of each other and are not added (keeps later queries small)
+	switch kind {
+	case "ensures", "frame", "panics_if", "on_panic", "lockfast", "lemma", "inv":
+	default:
+		c.assume(g, "")
+	}
 	return o
 }
 
@@ -239,7 +260,7 @@ func (c *Ctx) newState() *State {
 }
 
 func fieldHeap(st types.Type, fname string) string { return "F$" + typeKey(st) + "$" + fname }
-func elemHeap(et types.Type) string               { return "S$" + typeKey(et) }
+func elemHeap(et types.Type) string                { return "S$" + typeKey(et) }
 
 func isGround(t string) bool { return !strings.Contains(t, "q.") }
 
@@ -315,14 +336,92 @@ func (c *Ctx) storeCell(st *State, name string, keys []string, v string) {
 		nt = fmt.Sprintf("(store %s %s (store (select %s %s) %s %s))", t, keys[0], t, keys[0], keys[1], v)
 	}
 	c.hset(st, name, nt)
-	c.markDirty(st, keys[0])
+	if worldStore(name, keys[0]) {
+		if os.Getenv("GOVC_DEBUG") != "" && !c.isFreshRef(keys[0]) {
+			fmt.Fprintf(os.Stderr, "dirty: store %s key %s at %s\n", name, keys[0], c.P.pos(c.curPos))
+		}
+		c.markDirty(st, keys[0])
+	}
 }
 
 func (c *Ctx) markDirty(st *State, key string) {
 	if c.isFreshRef(key) {
 		return
 	}
+	if os.Getenv("GOVC_DEBUG") != "" {
+		fmt.Fprintf(os.Stderr, "dirty: mark key %s at %s\n", key, c.P.pos(c.curPos))
+	}
 	st.dirty = "true"
+}
+
+// worldStore: does a store to heap variable `name` at key `key` change world state?
+// Ownership is read off the address: the root object of a chain of embedded sub-objects decides.
+// Value types (Mask, ID, Entity) and the API helper objects of ecs (builders, queries, filters, events),
+// and everything in packages generic/filter/listener, are not world state; slice and map contents are
+// world state unless their backing store was allocated by the function under analysis.
+var nonWorldTypes = map[string]bool{"ecs.Mask": true, "ecs.ID": true, "ecs.Entity": true, "ecs.ResID": true, "ecs.Query": true, "ecs.EntityEvent": true,
+	"ecs.Builder": true, "ecs.Batch": true, "ecs.Relations": true, "ecs.MaskFilter": true, "ecs.RelationFilter": true, "ecs.CachedFilter": true,
+	"ecs.Component": true, "ecs.batchArchetypes": true, "ecs.EntityDump": true, "ecs.Config": true, "ecs.CompInfo": true, "ecs.singleArchetype": true, "ecs.componentType": true, "ecs.cacheEntry": true, "ecs.Cache": true}
+
+func worldStore(name, key string) bool {
+	if strings.HasPrefix(name, "G$") && !strings.HasPrefix(name, "G$ecs.") && !strings.HasPrefix(name, "G$generic.") {
+		return false // ghost field
+	}
+	if strings.HasPrefix(name, "GG$") {
+		return false
+	}
+	if name == "F$ecs.Cache$getArchetypes" {
+		return false // lazily installed callback, not structural
+	}
+	// sub-trees of the world that are not structural state: the lock itself, resources (C20),
+	// the filter cache (registration of filters is not a structural operation), statistics
+	for _, p := range []string{"(sub$ecs.World$locks ", "(sub$ecs.World$resources ", "(sub$ecs.World$filterCache ", "(sub$ecs.World$stats "} {
+		if strings.Contains(key, p) {
+			return false
+		}
+	}
+	if name == "F$ecs.World$listener.t" || name == "F$ecs.World$listener.v" {
+		return false
+	}
+	// filter-cache entries live in a slice and in two maps of their own key types
+	if strings.HasPrefix(name, "F$ecs.cacheEntry$") || strings.Contains(key, "(sub$ecs.cacheEntry$") || strings.HasPrefix(name, "M$uint32$int.") || strings.HasPrefix(name, "M$ptr_ecs.archetype$int.") || name == "S$uint32" {
+		// (S$uint32: the only []uint32 owned by a world is the filter-id pool of the cache)
+		return false
+	}
+	owner := ""
+	k := key
+	for strings.HasPrefix(k, "(sub$") {
+		i := strings.Index(k, " ")
+		fn := k[5:i] // T$field
+		if j := strings.LastIndex(fn, "$"); j >= 0 {
+			owner = fn[:j]
+		}
+		k = firstArg(k[i+1 : len(k)-1])
+	}
+	if strings.HasPrefix(k, "(elem ") || strings.HasPrefix(name, "S$") || strings.HasPrefix(name, "M$") {
+		for _, p := range []string{"S$generic.", "S$ecs.Component", "S$reflect."} {
+			if strings.HasPrefix(name, p) {
+				return false
+			}
+		}
+		if owner != "" && (nonWorldTypes[owner] || !strings.HasPrefix(owner, "ecs.")) && !strings.HasPrefix(k, "(elem ") {
+			return false
+		}
+		return true
+	}
+	if owner == "" && strings.HasPrefix(name, "F$") {
+		rest := name[2:]
+		if j := strings.LastIndex(rest, "$"); j >= 0 {
+			owner = rest[:j]
+		}
+	}
+	if i := strings.Index(owner, "_L"); i >= 0 { // generic instance: pointers_Lecs.archetype_R
+		owner = owner[:i]
+	}
+	if !strings.HasPrefix(owner, "ecs.") {
+		return false
+	}
+	return !nonWorldTypes[owner]
 }
 
 // isFreshRef: the key is (a sub-object or element of) an object allocated by the function under analysis.
@@ -371,12 +470,19 @@ func firstArg(s string) string {
 
 // loadLoc reads a non-struct cell.
 func (c *Ctx) loadLoc(st *State, l *Loc) Val {
+	if l.obase != nil {
+		base := c.loadLoc(st, l.obase)
+		return c.opaqueField(base, l.ofield, l.otyp)
+	}
 	lv := leavesOf(l.typ)
 	terms := make([]string, len(lv))
 	for i, lf := range lv {
 		terms[i] = c.selectCell(st, l.heap+lf.suffix, l.keys)
 	}
 	if l.idx != "" {
+		if classOf(l.typ) == CSmallArr {
+			return arrSelect(c.shape(l.typ, terms), l.idx)
+		}
 		return sc("(select "+terms[0]+" "+l.idx+")", l.et)
 	}
 	v := c.shape(l.typ, terms)
@@ -393,6 +499,13 @@ func (c *Ctx) shape(t types.Type, terms []string) Val {
 		return Val{K: VIface, Typ: t, F: []Val{sc(terms[0], nil), sc(terms[1], nil)}}
 	case CUPtr:
 		return Val{K: VUPtr, Typ: t, F: []Val{sc(terms[0], nil), sc(terms[1], nil)}}
+	case CSmallArr:
+		a := under(t).(*types.Array)
+		v := Val{K: VArr, Typ: t}
+		for i := range terms {
+			v.F = append(v.F, sc(terms[i], a.Elem()))
+		}
+		return v
 	}
 	return sc(terms[0], t)
 }
@@ -400,6 +513,13 @@ func (c *Ctx) shape(t types.Type, terms []string) Val {
 func (c *Ctx) storeLoc(st *State, l *Loc, v Val) {
 	lv := leavesOf(l.typ)
 	if l.idx != "" {
+		if classOf(l.typ) == CSmallArr {
+			whole := *l
+			whole.idx = ""
+			cur := c.loadLocQuiet(st, &whole)
+			c.storeLoc(st, &whole, arrStore(cur, l.idx, v))
+			return
+		}
 		cur := c.selectCell(st, l.heap, l.keys)
 		c.storeCell(st, l.heap, l.keys, "(store "+cur+" "+l.idx+" "+v.T+")")
 		return
@@ -565,4 +685,29 @@ func splitAnd(t string) []string {
 		body = strings.TrimSpace(body[len(a):])
 	}
 	return out
+}
+
+// splitAndDeep splits nested conjunctions (bounded fan-out).
+func splitAndDeep(t string) []string {
+	parts := splitAnd(t)
+	if len(parts) == 1 || len(parts) > 16 {
+		return []string{t}
+	}
+	var out []string
+	for _, p := range parts {
+		out = append(out, splitAndDeep(p)...)
+	}
+	return out
+}
+
+// opaqueField: field of a foreign struct value, as an uninterpreted function of the value.
+func (c *Ctx) opaqueField(base Val, field string, ft types.Type) Val {
+	c.note("fields of foreign structs (reflect.StructField) are uninterpreted functions of the struct value")
+	tmpl := c.zeroVal(ft)
+	var out []string
+	for i, s := range flatSorts(tmpl) {
+		out = append(out, c.ufApp(fmt.Sprintf("ext$fld$%s.%d", smtName(field), i), []string{base.T}, []string{"Int"}, s))
+	}
+	p := 0
+	return rebuild(tmpl, out, &p)
 }
